@@ -461,6 +461,9 @@ func checkSeq(c seqCase) evid.Outcome {
 type keyCase struct {
 	Key  evid.Hex `json:"key"`
 	Addr uint32   `json:"mcaddr"`
+	// a history: further multicast addresses derived with the SAME key afterwards (a multicast server does this for every
+	// group); each derivation must still be the function of (key, address) that TS005 defines
+	More []uint32 `json:"more_mcaddrs,omitempty"`
 }
 
 func checkKeys(c keyCase) evid.Outcome {
@@ -502,15 +505,32 @@ func checkKeys(c keyCase) evid.Outcome {
 	if v := cmp("GetMcNetSKey", "0x02 | McAddr little-endian | pad16", g, err, ref.McNetSKey(rk, c.Addr)); v != "" {
 		return evid.Fail("%s", v)
 	}
+	for i, addr := range append(append([]uint32{}, c.More...), c.Addr) {
+		var b lorawan.DevAddr
+		binary.BigEndian.PutUint32(b[:], addr)
+		g, err = mc.GetMcAppSKey(k, b)
+		if err != nil || !bytes.Equal(g[:], refSlice(ref.McAppSKey(rk, addr))) {
+			return evid.Fail("GetMcAppSKey(key %s, McAddr %08x) = %x (err %v) when called after deriving for McAddr %08x (call %d of the history); TS005 gives %x", c.Key, addr, g[:], err, c.Addr, i+2, refSlice(ref.McAppSKey(rk, addr)))
+		}
+		g, err = mc.GetMcNetSKey(k, b)
+		if err != nil || !bytes.Equal(g[:], refSlice(ref.McNetSKey(rk, addr))) {
+			return evid.Fail("GetMcNetSKey(key %s, McAddr %08x) = %x (err %v) when called after deriving for McAddr %08x (call %d of the history); TS005 gives %x", c.Key, addr, g[:], err, c.Addr, i+2, refSlice(ref.McNetSKey(rk, addr)))
+		}
+	}
 	// non-trivial: the address reads differently in the two byte orders
 	return evid.Outcome{NonTrivial: bits.ReverseBytes32(c.Addr) != c.Addr, Class: "keys"}
 }
+
+func refSlice(k ref.Key) []byte { return k[:] }
 
 func genKeys(t *rapid.T) keyCase {
 	c := keyCase{Key: gen.Bytes(t, "key", 16)}
 	c.Addr = binary.BigEndian.Uint32(gen.Bytes(t, "mcaddr", 4))
 	if rapid.IntRange(0, 15).Draw(t, "edge") == 0 {
 		c.Addr = rapid.SampledFrom([]uint32{0, 0xffffffff, 1, 0x01000000, 0x01020304, 0x80000000}).Draw(t, "edgeaddr")
+	}
+	for i, n := 0, rapid.IntRange(0, 3).Draw(t, "more"); i < n; i++ {
+		c.More = append(c.More, binary.BigEndian.Uint32(gen.Bytes(t, "mcaddr2", 4)))
 	}
 	return c
 }
@@ -584,6 +604,6 @@ func TestProp(t *testing.T) {
 		60000, 3500000, genSeq, checkSeq)
 
 	evid.Rapid(r, t, "multicast-keys",
-		"rapid: uniform 128-bit key and 32-bit McAddr (1/16 edge addresses); GetMcRootKeyForGenAppKey / ForAppKey, GetMcKEKey, GetMcAppSKey, GetMcNetSKey against single-block AES of the TS005 input blocks (internal/ref, crypto/aes): 0x00|pad, 0x20|pad, 0x00|pad, 0x01|McAddr LE|pad, 0x02|McAddr LE|pad. Non-trivial: the address differs from its byte-reversed reading.",
+		"rapid: uniform 128-bit key and 32-bit McAddr (1/16 edge addresses); GetMcRootKeyForGenAppKey / ForAppKey, GetMcKEKey, GetMcAppSKey, GetMcNetSKey against single-block AES of the TS005 input blocks (internal/ref, crypto/aes): 0x00|pad, 0x20|pad, 0x00|pad, 0x01|McAddr LE|pad, 0x02|McAddr LE|pad; then a history of 0..3 further addresses (and the first again) derived with the SAME key, each compared with the model (a cache that forgets part of the input shows here). Non-trivial: the address differs from its byte-reversed reading.",
 		25000, 2000000, genKeys, checkKeys)
 }
